@@ -398,6 +398,13 @@ def classify_c06(rec):
             return "F28-append-prune"
         if "UNION ALL" in sql and distinct_pruned(prql, sql):
             return "F66-distinct-pruned-under-append"
+        if has_let and re.search(r"\bsort\b", prql):
+            # F73: a SELECT over a let-table re-declares (`expr AS n`) the NAME n of the column its own ORDER BY is about
+            for mm in re.finditer(r"SELECT ((?:(?!SELECT|\bFROM\b).)*) FROM r_\d+ (?:WHERE (?:(?!ORDER BY|SELECT).)* )?ORDER BY ([^()]*?)(?: LIMIT| OFFSET|\)|$)", sql):
+                for n_ in re.findall(r" AS ([A-Za-z_][A-Za-z_0-9]*)", mm.group(1)):
+                    if re.search(r"\b%s\b" % n_, mm.group(2)) and len(re.findall(r"\b%s = " % n_, prql)) >= 2 \
+                            and re.search(r"r_\d+ AS \(SELECT (?:(?!\bFROM\b).)* AS %s\b" % n_, sql):
+                        return "F73-order-by-captured-by-redeclared-name"
     return None
 
 
@@ -655,7 +662,10 @@ def directed_boundaries(ck, rng):
         pg = P.Program(pre + [join] + rest, False, keep, {"order": None, "key_pos": None, "outer_right": False})
         c = make_case(pg, [P.gen_instance(rng, max_rows=6, min_rows=4), P.gen_instance(rng, max_rows=5, min_rows=3)])
         rp = W.from_program(pg)
-        for lab, q in W.sites_let(rp, rng) + W.sites_identity(rp, rng, kinds=("filter-true", "derive-empty", "take-open")):
+        # a column of the wildcard table u cannot be named through a relation variable (`cannot refer to column d of this table by
+        # name`: an ordinary, documented limitation), so the control that reads u.d gets no let sites
+        lets = [] if read_right else W.sites_let(rp, rng)
+        for lab, q in lets + W.sites_identity(rp, rng, kinds=("filter-true", "derive-empty", "take-open")):
             kd = W.kind_of(lab)
             c.add(kd, lab, q.prql(), None)
             if kd == "let" and lab.startswith("let@"):
